@@ -56,15 +56,14 @@
       the directive's argument cannot be coerced, the selection is left out with an error).  Such
       requests get [PUnevaluable r]: the executor model's answer, compared by the check, with no
       theorem about it ([request_evaluable] is the hypothesis of [C03_pipeline_total]).
-    - Outside the composition: Subscribe and asynchronous
-      resolvers (C02), the serialiser itself (encoding/json; [json_finite] is the condition under
+    - Outside the composition: asynchronous resolvers (C02), the serialiser itself (encoding/json; [json_finite] is the condition under
       which it accepts a number), stack depth of the Go runtime.  For these the glue theorems of
       round 1 (…_partial below) and the hostile stream remain the evidence. *)
 From Coq Require Import List NArith.
 From ApiFu Require Import Base.Sexp.
 From ApiFu Require Syn.Ast Syn.ParserModel Syn.FrontEnd Vld.Ast Vld.ValidatorModel Vld.ProofsCommon Val.Values ExeA.ArgData ExeA.ArgArgs ExeA.ArgModel ExeA.ArgSpec ExeA.ArgHyps.
 From ApiFu Require Vld.MemoEquiv.
-From ApiFu Require Import Pipe.PipelineModel Pipe.PipelineProofs Pipe.Convert Pipe.Compose Pipe.SchemaAgree Pipe.PositionsProofs Pipe.FieldPositions Pipe.ComposeProofs Pipe.CondsProofs Pipe.TypingProofs Pipe.CostCompose Pipe.CostComposeProofs Pipe.AcyclicProofs Pipe.InvariantProofs.
+From ApiFu Require Import Pipe.PipelineModel Pipe.PipelineProofs Pipe.Convert Pipe.Compose Pipe.SchemaAgree Pipe.PositionsProofs Pipe.FieldPositions Pipe.ComposeProofs Pipe.CondsProofs Pipe.TypingProofs Pipe.CostCompose Pipe.CostComposeProofs Pipe.AcyclicProofs Pipe.InvariantProofs Pipe.SubscribeCompose Pipe.SubscribeProofs.
 Import ListNotations.
 
 (** ** the composed model, from bytes *)
@@ -274,6 +273,25 @@ Theorem C03_validate_with_cost_never_crashes : forall pi VS F ES bs opname raw r
   parse_validate_cost pi VS F ES bs opname raw r max <> CCrashed.
 Proof. exact parse_validate_cost_never_crashes. Qed.
 
+(** ** graphql.Subscribe inside the composition.
+    [subscribe_order pi VS F ES bs opname raw W] (Pipe/SubscribeCompose.v) is graphql.Subscribe on the
+    bytes: the front half, GetOperation, C05's variable coercion, then executor.subscribe — the
+    operation must be a subscription, the schema must have a subscription object type,
+    collectFields (C01's [collect_impl]) must yield exactly one response key whose field is defined,
+    its arguments are coerced (C05), and the source resolver answers from the root value [W]: an
+    error (path = the response key) or the source value.  Outcome: syntax errors / validation errors
+    / exactly one error / the source.  No stage panics or runs out of fuel (in particular
+    collectFields never reaches panic("unexpected fragment type") and [Items()[0]] is only taken of
+    a one-element set).  The execution of ONE event is graphql.Execute with the event as root
+    value: [pipeline_order] above (an operation of kind subscription runs on the subscription root
+    type). *)
+Theorem C03_subscribe_never_crashes : forall pi VS F ES bs opname raw W,
+  Vld.ProofsCommon.order_ok pi ->
+  schema_accepted ES = true -> cost_schema_accepted ES = true -> schemas_agree VS ES = true ->
+  request_evaluable pi VS F ES bs opname raw ->
+  match subscribe_order pi VS F ES bs opname raw W with SubPanic _ | SubOutOfFuel _ => False | _ => True end.
+Proof. exact subscribe_never_crashes. Qed.
+
 (** ** the glue of graphql.go over observed stage verdicts (round 1; still what covers Subscribe,
     the cost rule, argument coercion and everything else outside the composed model) *)
 Theorem C03_execute_total_partial : forall p v e,
@@ -315,6 +333,7 @@ Print Assumptions C03_validate_establishes_doc_ok_partial.
 Print Assumptions C03_invariant_from_doc_ok.
 Print Assumptions C03_pipeline_response_partial.
 Print Assumptions C03_validate_with_cost_never_crashes.
+Print Assumptions C03_subscribe_never_crashes.
 Print Assumptions C03_execute_total_partial.
 Print Assumptions C03_execute_data_or_errors_partial.
 Print Assumptions C03_subscribe_total_partial.
